@@ -35,7 +35,7 @@ def show_path(p):
 
 
 def key_of_path(p):
-    return (p["conds"], tuple(sorted((repr(k), repr(v)) for k, v in p["regs"].items())), repr(p["pc"]) if p["exit"] is None else None,
+    return (tuple(sorted(repr(c) for c in p["conds"])), tuple(sorted((repr(k), repr(v)) for k, v in p["regs"].items())), repr(p["pc"]) if p["exit"] is None else None,
             tuple(repr(s) for s in p["stores"]), tuple(repr(s) for s in p["atomics"]), p["exit"][0] if p["exit"] else None)
 
 
